@@ -63,7 +63,8 @@ class Env:
     def __init__(self, parent: Optional["Env"] = None, vars: Optional[Dict[str, Any]] = None):
         self.parent = parent
         self.vars: Dict[str, Any] = dict(vars or {})
-        self.outer_names: set = set()  # names declared nonlocal / global in this scope
+        self.outer_names: set = set()  # names declared nonlocal in this scope
+        self.global_names: set = set()  # names declared global in this scope
 
     def set(self, name: str, value: Any) -> None:
         if name in self.outer_names:
@@ -86,6 +87,7 @@ class Env:
     def copy(self) -> "Env":
         c = Env(self.parent, dict(self.vars))
         c.outer_names = set(self.outer_names)
+        c.global_names = set(self.global_names)
         return c
 
 
@@ -1390,6 +1392,7 @@ class Interp:
             return None
         if isinstance(st, ast.Global):
             self.log("global-decl", st, names=list(st.names))
+            env.global_names.update(st.names)
             return None
         raise Unsupported(f"statement {type(st).__name__} at {mi.rel}:{st.lineno}")
 
@@ -1631,6 +1634,8 @@ class Interp:
             return list(it.attrs["_modules"].values())  # iterating an nn container
         if isinstance(it, range):
             return list(it)
+        if isinstance(it, str):
+            return list(it)
         if isinstance(it, dict):
             return list(it.keys())
         if isinstance(it, _DictItems):
@@ -1639,6 +1644,12 @@ class Interp:
 
     def assign(self, target: ast.AST, v: Any, env: Env, mi: ModInfo, st: ast.AST) -> None:
         if isinstance(target, ast.Name):
+            if self._is_global_name(env, target.id):
+                # `global x` in this function: the module's binding is updated (seen by every later reader)
+                mi._cache[target.id] = v
+                mi._thunks.setdefault(target.id, ("assign", ast.Constant(value=None), None))
+                self.log("global-store", st, name=target.id, value=v)
+                return
             env.set(target.id, v)
             return
         if isinstance(target, (ast.Tuple, ast.List)):
@@ -1826,7 +1837,19 @@ class Interp:
             return Ellipsis
         return v
 
+    def _is_global_name(self, env: Env, name: str) -> bool:
+        e: Optional[Env] = env
+        while e is not None:
+            if name in e.global_names:
+                return True
+            if name in e.vars:
+                return False
+            e = e.parent
+        return False
+
     def e_Name(self, n: ast.Name, env: Env, mi: ModInfo) -> Any:
+        if env.global_names and self._is_global_name(env, n.id) and mi.has(n.id):
+            return mi.get(n.id)
         ok, v = env.lookup(n.id)
         if ok:
             return v
@@ -2255,6 +2278,8 @@ class Interp:
                     return Bound(r, v)
                 if r is not None:
                     return r
+            if attr == "__class__":
+                return v.cls if v.cls is not None else ExtV(v.cls_name)
             if attr == "__dict__":
                 return v.attrs
             if not v.open_attrs:
@@ -3001,7 +3026,13 @@ def _percent_format(fmt_s: str, arg: Any) -> str:
 def format_value(val: Any) -> str:
     """Text of a formatted value: strings as they are, anything else a `{...}` placeholder
     (the digits are not decided; that a value *is* printed is)."""
-    return val if isinstance(val, str) else "{" + fmt(_term(val)) + "}"
+    if isinstance(val, str):
+        return val
+    if isinstance(val, bool) or val is None:
+        return str(val)
+    if isinstance(val, int) or (isinstance(val, sp.Integer)):
+        return str(int(val))  # integers print exactly; the digits of other numbers are not decided
+    return "{" + fmt(_term(val)) + "}"
 
 
 def _str_format(s: str, a: List[Any], k: Dict[str, Any]) -> str:
